@@ -1,6 +1,7 @@
 package bernstein
 
 import (
+	"math"
 	"context"
 
 	"github.com/herohde/morlock/pkg/board"
@@ -55,4 +56,123 @@ func Harness_C20_BernsteinBook() {
 	verifReach("bernstein-book")
 	moves, err := b.Find(context.Background(), fen.Initial)
 	verifAssert(err == nil && bookRepliesLegal(fen.Strip(fen.Initial), moves), "every BERNSTEIN book reply is legal in the position it is keyed on")
+}
+
+// ---- BERNSTEIN ratio evaluation: finite whatever the four considerations count ----
+// The four considerations are replaced by arbitrary non-negative counts per side (they are
+// counts of moves, squares and pieces); the real per-side Evaluate (floor at 1) and the real
+// Eval.Evaluate (ratio of the two sides) run on them.
+var specComp [4][2]int
+
+func specMobility(pos *board.Position, side board.Color) int    { return specComp[0][side] }
+func specControl(pos *board.Position, side board.Color) int     { return specComp[1][side] }
+func specKingDefense(pos *board.Position, side board.Color) int { return specComp[2][side] }
+func specMaterial(pos *board.Position, side board.Color) int    { return specComp[3][side] }
+
+func Harness_C20_BernsteinRatio() {
+	for i := 0; i < 4; i++ {
+		for s := 0; s < 2; s++ {
+			v := nondetInt("count")
+			verifAssume(v >= 0 && v <= 1<<16)
+			specComp[i][s] = v
+		}
+	}
+	factor := nondetInt("factor")
+	verifAssume(factor >= 0 && factor <= 1<<10)
+	pos, turn, np, fm, err := fen.Decode(fen.Initial)
+	if err != nil {
+		panic("bad position")
+	}
+	if nondetBool("black") {
+		turn = turn.Opponent()
+	}
+	b := board.NewBoard(board.NewZobristTable(1), pos, turn, np, fm)
+	verifReach("bernstein-ratio")
+	self, opp := Evaluate(pos, factor, turn), Evaluate(pos, factor, turn.Opponent())
+	verifAssert(self >= 1 && opp >= 1, "each side's BERNSTEIN score is at least 1 (it is the divisor of the ratio)")
+	v := float64(Eval{Factor: factor}.Evaluate(context.Background(), b))
+	verifAssert(!math.IsNaN(v) && !math.IsInf(v, 0), "the BERNSTEIN evaluation is a finite number")
+	verifAssert((v > 0) == (self > opp) && (v < 0) == (self < opp), "the BERNSTEIN evaluation favours the side with the larger score")
+}
+
+// ---- BERNSTEIN plausible-move selection: Explore = Selection(truncate(FindPlausibleMoves)) ----
+// FindPlausibleMoves is replaced by an arbitrary list of distinct moves; the real truncate and
+// the real search.Selection decide which of them the search may play.
+var specPMT []board.Move
+
+func specFindPlausibleMoves(b *board.Board) []board.Move { return specPMT }
+
+func symBMove() board.Move {
+	m := board.Move{Type: board.MoveType(nondetU8("type") & 15), From: board.Square(nondetU8("from") & 63), To: board.Square(nondetU8("to") & 63), Piece: board.Piece(nondetU8("piece") & 7), Promotion: board.Piece(nondetU8("promo") & 7), Capture: board.Piece(nondetU8("capture") & 7)}
+	return m
+}
+
+func harnessBernsteinExplore(maxN int) {
+	n := int(verifSplit(uint64(nondetU8("n")), 0, uint64(maxN)))
+	limit := int(verifSplit(uint64(nondetU8("limit")), 0, uint64(maxN+1))) // 0 = no limit
+	specPMT = nil
+	for i := 0; i < n; i++ {
+		m := symBMove()
+		for _, x := range specPMT {
+			verifAssume(x != m)
+		}
+		specPMT = append(specPMT, m)
+	}
+	verifReach("bernstein-explore")
+	prio, pick := PlausibleMoveTable{Limit: limit}.Explore(context.Background(), nil)
+	k := n
+	if limit > 0 && limit < n {
+		k = limit
+	}
+	for i := 0; i < k; i++ {
+		verifAssert(pick(specPMT[i]), "every plausible move within the branch limit is selected: at least one whenever there is a plausible move")
+		for j := i + 1; j < k; j++ {
+			verifAssert(prio(specPMT[i]) > prio(specPMT[j]), "plausible moves are explored in table order")
+		}
+	}
+	m := symBMove()
+	in := false
+	for i := 0; i < k; i++ {
+		in = in || specPMT[i] == m
+	}
+	verifAssert(pick(m) == in, "exactly the plausible moves within the branch limit are selected")
+}
+
+func Harness_C20_BernsteinExplore3() { harnessBernsteinExplore(3) }
+func Harness_C20_BernsteinExplore5() { harnessBernsteinExplore(5) }
+
+// FindPlausibleMoves on concrete positions (single reply to a check, castling as the only
+// plausible move, stalemate, ordinary positions): legal moves only, each once, some move
+// whenever a legal move exists (concrete evaluation of the real routine in the interpreter).
+var plausibleRoots = []string{
+	"7k/8/8/8/8/8/6PP/1r4K1 w - - 0 1",
+	"1R4k1/6pp/8/8/8/8/8/7K b - - 0 1",
+	"r1bqk2r/pppp1ppp/2nbpn2/6B1/3P4/2PB1N2/PP3PPP/RN1Q1RK1 b kq - 5 7",
+	"rnbqkbnr/pppppppp/8/8/8/8/PPPPPPPP/RNBQKBNR w KQkq - 0 1",
+	"7k/5Q2/6K1/8/8/8/8/8 b - - 0 1",
+	"4k3/8/8/8/8/8/8/4K2R w K - 0 1",
+}
+
+func Harness_C20_BernsteinPlausible() {
+	verifReach("bernstein-plausible")
+	for _, f := range plausibleRoots {
+		pos, turn, np, fm, err := fen.Decode(f)
+		if err != nil {
+			panic("bad root")
+		}
+		b := board.NewBoard(board.NewZobristTable(1), pos, turn, np, fm)
+		legal := pos.LegalMoves(turn)
+		list := FindPlausibleMoves(b)
+		for i, m := range list {
+			ok := false
+			for _, l := range legal {
+				ok = ok || l == m
+			}
+			verifAssert(ok, "every plausible move is a legal move")
+			for j := 0; j < i; j++ {
+				verifAssert(list[j] != m, "each plausible move is listed once")
+			}
+		}
+		verifAssert((len(list) > 0) == (len(legal) > 0), "some move is plausible whenever a legal move exists")
+	}
 }
